@@ -4,6 +4,7 @@ import (
 	"bytes"
 	"encoding/binary"
 	"encoding/gob"
+	"errors"
 	"fmt"
 	"sync"
 
@@ -89,6 +90,21 @@ func (idx *BigIndexWriter) AddRow(values map[string]string) (uint32, error) {
 	}
 
 	return rowID, nil
+}
+
+// Close releases the temporary write transaction that the writer keeps open
+// between AddRow calls. It has to be called when the writer is abandoned without
+// Flush, as the temporary database can't be closed otherwise; after Flush it does
+// nothing.
+func (idx *BigIndexWriter) Close() error {
+	idx.mtx.Lock()
+	defer idx.mtx.Unlock()
+
+	if err := idx.tempTx.Rollback(); err != nil && !errors.Is(err, bbolt.ErrTxClosed) {
+		return err
+	}
+
+	return nil
 }
 
 func (idx *BigIndexWriter) Flush() error {
